@@ -10,18 +10,18 @@ par clang -c -O1 -g $SAN -fno-finite-loops -I$REPO $REPO/igris/util/printf_impl.
 par clang -c -O1 -g $SAN -fno-builtin -Wno-implicit-function-declaration -I$REPO $REPO/compat/libc/stdio/sprintf.c -o $BUILD/sprintf.o
 par clang -c -O1 -g $SAN -fno-builtin -Wno-implicit-function-declaration -I$REPO $REPO/compat/libc/stdio/fdprintf.c -o $BUILD/fdprintf.o
 # harness: the oracle TU, and the typed-call thunks (about 3000 tiny instantiations: -O0, no instrumentation)
-par clang++ -std=c++17 -c -O1 -g $DEF -I$REPO -I$MC -I$H $H/c06_printf.cpp -o $BUILD/h.o
-par clang++ -std=c++17 -c -O0 $DEF -I$REPO -I$MC -I$H $H/c06_dispatch.cpp -o $BUILD/d.o
-par clang++ -std=c++17 -O2 -c -I$MC $MC/mc.cpp -o $BUILD/mc.o
+par clang++ -std=c++20 -c -O1 -g $DEF -I$REPO -I$MC -I$H $H/c06_printf.cpp -o $BUILD/h.o
+par clang++ -std=c++20 -c -O0 $DEF -I$REPO -I$MC -I$H $H/c06_dispatch.cpp -o $BUILD/d.o
+par clang++ -std=c++20 -O2 -c -I$MC $MC/mc.cpp -o $BUILD/mc.o
 # re-entrancy run: the engine and its libc entry points under ThreadSanitizer, two threads on the controlled
 # scheduler (sched.cpp and mc.cpp stay uninstrumented: TSan then sees only what the code under test does)
 TF="-O1 -g -DNDEBUG -fsanitize=thread -fno-omit-frame-pointer -I$REPO -I$MC" # the TSan build is also the release (NDEBUG) build
 par gcc -c $TF $REPO/igris/util/printf_impl.c -o $BUILD/printf_impl_tsan.o
 par gcc -c $TF -fno-builtin -Wno-implicit-function-declaration $REPO/compat/libc/stdio/sprintf.c -o $BUILD/sprintf_tsan.o
 par gcc -c $TF -fno-builtin -Wno-implicit-function-declaration $REPO/compat/libc/stdio/fdprintf.c -o $BUILD/fdprintf_tsan.o
-par g++ -std=c++17 -c $TF -DREENT_ID='"C06"' $H/c06_reentrancy.cpp -o $BUILD/h_tsan.o
-par g++ -std=c++17 -O2 -g -I$MC -c $MC/sched/sched.cpp -o $BUILD/sched.o
-par g++ -std=c++17 -O2 -c -I$MC $MC/mc.cpp -o $BUILD/mc_gcc.o
+par g++ -std=c++20 -c $TF -DREENT_ID='"C06"' $H/c06_reentrancy.cpp -o $BUILD/h_tsan.o
+par g++ -std=c++20 -O2 -g -I$MC -c $MC/sched/sched.cpp -o $BUILD/sched.o
+par g++ -std=c++20 -O2 -c -I$MC $MC/mc.cpp -o $BUILD/mc_gcc.o
 # build-mode variant of the repository sources: the other compiler at -O2, release mode (-DNDEBUG: an assert that carries
 # a side effect vanishes) and plain char unsigned (-funsigned-char: ARM / PowerPC / RISC-V). No sanitizer; the harness
 # objects are shared with the main build (they include only printf_impl.h, which has no char-dependent declaration).
